@@ -97,6 +97,6 @@ def angle (op : String) (a : Json) : P Json := do
   | _ => throw s!"C16: unknown angle op {op}"
 
 def handle (op : String) (a : Json) : P Json :=
-  if op.startsWith "a_" || op == "mk_angle" || op == "make_valid" then angle op a else plain op a
+  if op.startsWith "a_" || op == "mk_angle" || op.startsWith "make_valid" then angle op a else plain op a
 
 end CR.Drv.C16
